@@ -288,3 +288,116 @@ def f_exceptions_as_values():
 def f_numbers():
     return 7 / 2, 7 // 2, -7 // 2, 7 % 3, -7 % 3, 2 ** 10, 2 ** -1, 1e3, 0.1 + 0.2, int('12') + float('1.5'), 10 >> 1, 3 << 2, 6 & 3, 6 | 3, 6 ^ 3, ~5, \
         True & False, 1 if 0.0 else 2, int(3.9), int(-3.9), round(2.5), round(3.5), 9007199254740993 * 1.0, -0.0 == 0.0
+
+
+class Bag(object):
+    """a container class of the kind the repository has (own __iter__, __len__, __contains__, __str__, __eq__)"""
+    def __init__(self, items=None):
+        self.ids = list(items or [])
+
+    def __iter__(self):
+        return self.ids.__iter__()
+
+    def __len__(self):
+        return self.ids.__len__()
+
+    def __contains__(self, k):
+        return k in self.ids
+
+    def __str__(self):
+        return 'Bag(%s)' % ', '.join(str(i) for i in self.ids)
+
+    def __repr__(self):
+        return 'Bag' + repr(self.ids)
+
+    def __eq__(self, other):
+        if isinstance(other, Bag):
+            return self.ids == other.ids
+        elif type(other) is list:
+            return self.ids == other
+        return False
+
+
+class Child(Base):
+    def __init__(self, v):
+        super().__init__(v, scale=7)
+
+    def value(self):
+        return super().value() - 1
+
+
+def f_dunder_dispatch():
+    b = Bag([3, 1, 2])
+    e = Bag()
+    return [x for x in b], len(b), 1 in b, 9 in b, str(b), '%s|%r' % (b, b), f'{b}', b == Bag([3, 1, 2]), b == [3, 1, 2], b != Bag([1]), \
+        bool(b), bool(e), ('yes' if e else 'no'), sorted(b), list(b), sum(b), max(b), [i for i, x in enumerate(b)], not e
+
+
+def f_super_and_shadowing():
+    c = Child(2)
+    c.kind = 'instance-level'
+    return c.value(), c.describe(), Child.kind, c.kind, Base(1).kind
+
+
+def f_star_calls_and_slices():
+    def f(a, b, c=0, *rest, **kw):
+        return (a, b, c, rest, sorted(kw.items()))
+    args = [1, 2, 3, 4]
+    kw = {'z': 1}
+    L = list(range(8))
+    L[1:3] = ['x']
+    L[-1:] = []
+    M = list('abcdef')
+    del M[1:3]
+    rows = [(1, 'a'), (2, 'b')]
+    return f(*args, **kw), f(*args[:2]), f(0, *args[:1], c=5, **{'k': 2}), L, M, list(zip(*rows)), [*args, *'xy'], {**kw, 'y': 2}, (*args[:1], 9)
+
+
+def f_closures_late_binding():
+    fs = [lambda: i for i in range(3)]
+    gs = [lambda i=i: i for i in range(3)]
+    acc = []
+    def outer():
+        total = [0]
+        def add(n):
+            total[0] += n
+            acc.append(total[0])
+            return total[0]
+        return add
+    add = outer()
+    add(2)
+    add(3)
+    return [f() for f in fs], [g() for g in gs], acc
+
+
+def f_finally_return_and_nested_loops():
+    def g():
+        try:
+            return 'try'
+        finally:
+            pass
+    out = []
+    for i in range(3):
+        for j in range(3):
+            if j == 1:
+                continue
+            if j == 2:
+                break
+            out.append((i, j))
+        else:
+            out.append('inner-else')
+    k = 0
+    while True:
+        k += 1
+        if k > 2:
+            break
+    return g(), out, k
+
+
+def f_string_methods():
+    s = '  Hello, World  '
+    return s.strip().lower(), s.lstrip(), s.rstrip(), s.split(), s.strip().split(', '), 'a-b-c'.rsplit('-', 1), 'abc'.find('c'), 'abc'.find('z'), \
+        'abc'.index('b'), 'aXbXc'.partition('X'), 'aXbXc'.rpartition('X'), 'abc'.isalpha(), '12'.isdigit(), 'a1'.isalnum(), ' '.isspace(), \
+        'abc'.center(7, '*'), 'abc'.ljust(5) + '|', '7'.zfill(3), 'Hello'.count('l'), 'x'.join(['a']), ''.join(reversed('abc')), 'abc'[::-1], \
+        'line1\nline2\r\nline3'.splitlines(), 'line1\nline2\n'.splitlines(True), 'é'.encode('utf-8').hex(), '%5s|%-5s|%05d|%x|%o|%e' % ('a', 'b', 42, 255, 8, 1234.5), \
+        '{:>5}|{:<5}|{:^5}|{:05.1f}|{:,}'.format('a', 'b', 'c', 3.14159, 1234567), repr('it\'s'), str(None), str(1.0), str(True), 'a' < 'b', 'a' * 0
